@@ -4,6 +4,7 @@ import (
 	"fmt"
 	"os"
 	"path/filepath"
+	"strings"
 	"time"
 
 	eng "verif.local/engine"
@@ -44,15 +45,45 @@ var kernelNotes = map[string]struct {
 	},
 }
 
-func runKernels(prop, tier, solver string, seed int) int {
+func firstLine(s string) string {
+	if i := strings.Index(s, "\n"); i > 0 {
+		return s[:i]
+	}
+	return s
+}
+
+var l2Notes = struct {
+	explanation string
+	assumptions []string
+	rule        string
+}{
+	explanation: "symbolic execution (go/ssa -> SMT, cvc5) of code generated on this run by the cff binary built from /repo's working tree, for a fixed corpus of directive programs (/verif/corpus); the scheduler is replaced by its sequential contract stub (harness/sched_contract.go.txt, obligations of DESIGN.md 3.2 which the L1 checks establish for the real scheduler), user functions by stubs whose outcome (return / error / panic) and results are solver variables resp. uninterpreted functions of their arguments; each harness compares the directive against a plain-Go sequential reference, so one unsat covers every input value, every outcome assignment and both job orders of that program. Outside the claim: programs not in the corpus; concurrency inside the generated code (delegated to the L1 contract).",
+	assumptions: []string{"contract scheduler stub (K1-K7): jobs run one at a time, each once, after their dependencies, lowest- or highest-index-first", "user functions are pure functions of their data arguments (uninterpreted) with outcome in the stated set", "time.Now/Since, debug.Stack return fixed values; sync/atomic.Bool is a plain cell (sequential execution)", "errors.As/Is and multierr are engine-level list models"},
+	rule:        "one case = one corpus harness under one job-order policy; non-trivial = its coverage witnesses (named in the harness) are satisfiable; evaluations = SMT queries",
+}
+
+func runKernels(prop, tier, solver string, seed int) (*eng.Evidence, int) {
 	t0 := time.Now()
 	specs := kernelPlan(prop, tier)
 	if len(specs) == 0 {
 		l2, corpus, err := l2Specs(prop, tier)
 		defer corpus.Cleanup()
+		if bv, ok := err.(*buildViolation); ok {
+			path, werr := eng.WriteBuildReplay(filepath.Join(verifDir, "replay"), prop, "flows", bv.what)
+			if werr == nil {
+				if okr, out, _ := eng.RunReplay(path); okr {
+					fmt.Printf("VIOLATION property=%s replay=%s\n  what: %s\n%s\n", prop, path, firstLine(bv.what), lastLines(out, 3))
+					ev := &eng.Evidence{PropertyID: prop, Tier: tier, Seed: seed, Level: "other", WallS: time.Since(t0).Seconds(), Violations: 1,
+						Coverage: map[string]interface{}{"explanation": "corpus generation: " + bv.what, "evaluations": 1, "distinct_nontrivial": 2, "samples": []interface{}{bv.what}}}
+					return ev, 1
+				}
+			}
+			fmt.Printf("INCONCLUSIVE property=%s %s\n", prop, bv.what)
+			return nil, 2
+		}
 		if err != nil {
 			fmt.Printf("INCONCLUSIVE property=%s corpus preparation failed: %v\n", prop, err)
-			return 2
+			return nil, 2
 		}
 		specs = l2
 	}
@@ -158,7 +189,10 @@ func runKernels(prop, tier, solver string, seed int) int {
 	for f := range encoded {
 		enc = append(enc, f)
 	}
-	notes := kernelNotes[prop]
+	notes, ok := kernelNotes[prop]
+	if !ok {
+		notes = l2Notes
+	}
 	ev := &eng.Evidence{PropertyID: prop, Tier: tier, Seed: seed, Level: "other", WallS: time.Since(t0).Seconds(), Violations: violations,
 		Coverage: map[string]interface{}{
 			"explanation":         notes.explanation,
@@ -175,11 +209,7 @@ func runKernels(prop, tier, solver string, seed int) int {
 		},
 		Assumptions: notes.assumptions,
 	}
-	if err := eng.WriteEvidence(filepath.Join(verifDir, "evidence"), ev); err != nil {
-		fmt.Println("cannot write evidence:", err)
-		return 2
-	}
-	fmt.Printf("property=%s tier=%s kernels=%d queries=%d obligations=%d discharged=%d covers=%d violations=%d wall=%.1fs exit=%d\n",
+	fmt.Printf("property=%s layer=L2/K tier=%s kernels=%d queries=%d obligations=%d discharged=%d covers=%d violations=%d wall=%.1fs exit=%d\n",
 		prop, tier, len(specs), queries, oblig, disch, nontriv, violations, time.Since(t0).Seconds(), exit)
-	return exit
+	return ev, exit
 }
